@@ -312,6 +312,9 @@ func (it *Interp) load(p *Ptr) Value {
 		it.goPanicf("runtime error: invalid memory address or nil pointer dereference")
 	}
 	v := p.cell.v
+	if p.sym != nil {
+		return it.loadSym(p)
+	}
 	for _, i := range p.path {
 		switch x := v.(type) {
 		case *StructV:
@@ -355,6 +358,10 @@ func setPath(v Value, path []int, nv Value) Value {
 }
 
 func (it *Interp) store(p *Ptr, v Value) {
+	if !p.isNil() && p.sym != nil {
+		i := it.concIndex(p.sym, p.symN, "store through symbolic index")
+		p = &Ptr{cell: p.cell, path: append(append([]int{}, p.path...), p.symOff+i)}
+	}
 	if p.isNil() {
 		it.goPanicf("runtime error: invalid memory address or nil pointer dereference (store)")
 	}
@@ -364,7 +371,66 @@ func (it *Interp) store(p *Ptr, v Value) {
 	p.cell.v = setPath(p.cell.v, p.path, v)
 }
 
+// loadSym reads an element of a scalar array at a symbolic index as an ite over the distinct stored values.
+func (it *Interp) loadSym(p *Ptr) Value {
+	v := p.cell.v
+	for _, i := range p.path {
+		switch x := v.(type) {
+		case *StructV:
+			v = x.f[i]
+		case *ArrayV:
+			v = x.e[i]
+		default:
+			panic(unsupported("symbolic-index load through non-aggregate"))
+		}
+	}
+	arr, ok := v.(*ArrayV)
+	if !ok {
+		panic(unsupported("symbolic-index load on non-array"))
+	}
+	ts := it.ts
+	// group indices by value
+	type grp struct {
+		val  *Term
+		cond *Term
+	}
+	var groups []*grp
+	byID := map[int]*grp{}
+	count := map[int]int{}
+	for i := 0; i < p.symN; i++ {
+		t, ok := arr.e[p.symOff+i].(*Term)
+		if !ok || t.op == OpNum {
+			panic(unsupported("symbolic-index load of non-scalar element"))
+		}
+		g := byID[t.id]
+		if g == nil {
+			g = &grp{val: t, cond: ts.Bool(false)}
+			byID[t.id] = g
+			groups = append(groups, g)
+		}
+		g.cond = ts.Or(g.cond, ts.Eq(p.sym, ts.BV(uint64(i), p.sym.w)))
+		count[t.id]++
+	}
+	// the most frequent value becomes the default
+	best := groups[0]
+	for _, g := range groups {
+		if count[g.val.id] > count[best.val.id] {
+			best = g
+		}
+	}
+	acc := best.val
+	for _, g := range groups {
+		if g != best {
+			acc = ts.Ite(g.cond, g.val, acc)
+		}
+	}
+	return acc
+}
+
 func subPtr(p *Ptr, i int) *Ptr {
+	if p.sym != nil {
+		panic(unsupported("field of element at symbolic index"))
+	}
 	np := make([]int, len(p.path)+1)
 	copy(np, p.path)
 	np[len(p.path)] = i
@@ -677,6 +743,7 @@ func (it *Interp) run(fr *frame) Value {
 func (it *Interp) runFrom(fr *frame, blk *ssa.BasicBlock) Value {
 	var prev *ssa.BasicBlock
 	skipPhis := false
+	mergedNow := false
 	for {
 		fr.visits[blk]++
 		if fr.visits[blk] > it.h.cfg.Unwind {
@@ -714,7 +781,7 @@ func (it *Interp) runFrom(fr *frame, blk *ssa.BasicBlock) Value {
 				if !c.IsConst() && !fr.lenient && !it.noMerge {
 					if j := it.tryMerge(fr, blk, c); j != nil {
 						next = j
-						skipPhis = true
+						mergedNow = true
 						break
 					}
 				}
@@ -755,11 +822,8 @@ func (it *Interp) runFrom(fr *frame, blk *ssa.BasicBlock) Value {
 		if next == nil {
 			panic("internal: block without terminator")
 		}
-		if _, isIf := blk.Instrs[len(blk.Instrs)-1].(*ssa.If); !isIf || !skipPhis {
-			skipPhis = false
-		} else {
-			// merged: phis of next were already assigned
-		}
+		skipPhis = mergedNow // merged: phis of next were already assigned
+		mergedNow = false
 		prev, blk = blk, next
 	}
 }
@@ -837,9 +901,20 @@ func (it *Interp) exec(fr *frame, ins ssa.Instruction) {
 		fr.env[x] = s.f[x.Field]
 	case *ssa.IndexAddr:
 		base := it.get(fr, x.X)
-		idx := it.get(fr, x.Index).(*Term)
+		idx := it.idx64(it.get(fr, x.Index).(*Term), x.Index.Type())
+		scalarElem := false
+		if !idx.IsConst() {
+			et := x.Type().(*types.Pointer).Elem()
+			if _, _, ok := intInfo(et); ok || isBool(et) {
+				scalarElem = true
+			}
+		}
 		switch b := base.(type) {
 		case *SliceV:
+			if scalarElem && b.len > 0 && it.symIndexInRange(idx, b.len) {
+				fr.env[x] = &Ptr{cell: b.cell, sym: idx, symN: b.len, symOff: b.off}
+				break
+			}
 			i := it.concIndex(idx, b.len, "slice")
 			fr.env[x] = &Ptr{cell: b.cell, path: []int{b.off + i}}
 		case *Ptr: // pointer to array
@@ -847,6 +922,10 @@ func (it *Interp) exec(fr *frame, ins ssa.Instruction) {
 				it.goPanicf("nil array pointer")
 			}
 			n := int(under(x.X.Type().(*types.Pointer).Elem()).(*types.Array).Len())
+			if scalarElem && n > 0 && b.sym == nil && it.symIndexInRange(idx, n) {
+				fr.env[x] = &Ptr{cell: b.cell, path: b.path, sym: idx, symN: n}
+				break
+			}
 			i := it.concIndex(idx, n, "array")
 			fr.env[x] = subPtr(b, i)
 		default:
@@ -854,9 +933,15 @@ func (it *Interp) exec(fr *frame, ins ssa.Instruction) {
 		}
 	case *ssa.Index:
 		base := it.get(fr, x.X)
-		idx := it.get(fr, x.Index).(*Term)
+		idx := it.idx64(it.get(fr, x.Index).(*Term), x.Index.Type())
 		switch b := base.(type) {
 		case *ArrayV:
+			if !idx.IsConst() && len(b.e) >= 8 {
+				if _, isT := b.e[0].(*Term); isT && it.symIndexInRange(idx, len(b.e)) {
+					fr.env[x] = it.loadSym(&Ptr{cell: &Cell{v: b}, sym: idx, symN: len(b.e)})
+					break
+				}
+			}
 			i := it.concIndex(idx, len(b.e), "array value")
 			fr.env[x] = b.e[i]
 		case *StrV:
@@ -868,7 +953,7 @@ func (it *Interp) exec(fr *frame, ins ssa.Instruction) {
 		base := it.get(fr, x.X)
 		switch b := base.(type) {
 		case *StrV:
-			fr.env[x] = it.strIndex(b, it.get(fr, x.Index).(*Term))
+			fr.env[x] = it.strIndex(b, it.idx64(it.get(fr, x.Index).(*Term), x.Index.Type()))
 		case *MapV:
 			mt := under(x.X.Type()).(*types.Map)
 			key := it.get(fr, x.Index)
@@ -2268,4 +2353,32 @@ func (it *Interp) callPlain(fn *ssa.Function, args []Value, binds []Value) Value
 	it.noSum++
 	defer func() { it.noSum-- }()
 	return it.call(fn, args, binds)
+}
+
+// symIndexInRange decides whether a symbolic index is provably inside [0,n) (syntactically, or by
+// one solver query); only then may the access be kept symbolic.
+func (it *Interp) symIndexInRange(idx *Term, n int) bool {
+	if n < 8 {
+		return false // small objects: case split is cheaper and keeps stores simple
+	}
+	oob := it.ts.Not(it.ts.ULt(idx, it.ts.BV(uint64(n), idx.w)))
+	if oob.IsFalse() {
+		return true
+	}
+	if it.spec > 0 || it.sum != nil {
+		return false
+	}
+	r, _ := it.solver.Check(oob, nil)
+	return r == ResUnsat
+}
+
+// idx64 widens an index operand to 64 bits according to its Go type.
+func (it *Interp) idx64(t *Term, ty types.Type) *Term {
+	if t.w == 64 {
+		return t
+	}
+	if _, signed, ok := intInfo(ty); ok && signed {
+		return it.ts.SExt(t, 64)
+	}
+	return it.ts.ZExt(t, 64)
 }
